@@ -69,6 +69,14 @@ func TestVerifC17AuthzV1(t *testing.T) {
 			}
 		}
 	}
+	for k := range only { // replaying a step of a key history needs the earlier steps on the same object
+		for _, ph := range []string{"@history-key-removed", "@history-key-restored"} {
+			if strings.Contains(k, ph) {
+				only[strings.Replace(k, ph, "", 1)] = true
+				only[strings.Replace(k, ph, "@history-key-removed", 1)] = true
+			}
+		}
+	}
 	opsF, _ := os.Create(filepath.Join(outDir, "ops.jsonl"))
 	implF, _ := os.Create(filepath.Join(outDir, "impl.out"))
 	ops, impl := bufio.NewWriterSize(opsF, 1<<20), bufio.NewWriterSize(implF, 1<<20)
@@ -142,102 +150,132 @@ func TestVerifC17AuthzV1(t *testing.T) {
 	srv := tctx.oauthService
 	now := time.Now()
 
-	for round := 0; round < rounds; round++ {
-		for ki, signer := range requesters {
-			issuer := didOf(signer)
-			claims := map[string]interface{}{"iss": issuer, "sub": "did:nuts:authorizer", "aud": "http://oauth", "jti": "a005e81c-6749-4967-b01c-495228fcafb4",
-				"iat": now.Unix(), "nbf": 0, "exp": now.Add(5 * time.Second).Unix(), "purposeOfUse": "unit-test"}
-			hdr := map[string]interface{}{"typ": "JWT", "kid": signer.KeyID()}
-			variants := tokenV2.VHostile(r, tokenV2.VNewBase(hdr, tokenV2.VJSON(claims), signer, requesters[(ki+1)%len(requesters)], mallory), 12)
-			for _, l := range lookalikes[signer.KeyName()] {
-				for _, v := range tokenV2.VHostile(r, tokenV2.VNewBase(hdr, tokenV2.VJSON(claims), signer, requesters[(ki+1)%len(requesters)], l), 0) {
-					if v.By == "attacker" {
-						v.Name, v.Class = "lookalike("+l.KeyName()+")-"+v.Name, "lookalike-did-"+v.Class
-						variants = append(variants, v)
-					}
-				}
+	// The long-lived object (jar / signature verifier / authz server) is used across a KEY HISTORY: after the main run every key is
+	// removed from the key source and the valid tokens are presented again (must be refused: the verification key is what the
+	// source returns NOW), then the keys are restored (accepted again).
+	savedKeys := map[string]crypto.PublicKey{}
+	for _, phase := range []string{"", "@history-key-removed", "@history-key-restored"} {
+		phaseRounds := rounds
+		switch phase {
+		case "@history-key-removed":
+			phaseRounds = 1
+			for k, v := range source {
+				savedKeys[k] = v
+				delete(source, k)
 			}
-			for _, v := range variants {
-				v.Name = "r" + strconv.Itoa(round) + "-" + signer.KeyName() + "-" + v.Name
-				info, _ := tokenV2.VAnalyse(v.Tok)
-				verd := map[string]interface{}{}
-				claimedIss := ""
-				if info.Parses && len(info.Sigs) == 1 {
-					key, ok := source[info.Sigs[0].Kid]
-					verd["keyfound"] = ok
-					verd["ownkey"] = ownKeys[info.Sigs[0].Kid]
-					if ok {
-						verd["fits"] = tokenV2.VAlgFitsKey(info.Sigs[0].Alg, key)
-						tok, err := jwt.ParseString(v.Tok, jwt.WithKey(jwa.SignatureAlgorithm(info.Sigs[0].Alg), key), jwt.WithVerify(true), jwt.WithAcceptableSkew(srv.clockSkew))
-						verd["verified"] = err == nil
-						if err == nil {
-							claimedIss = tok.Issuer()
-							_, perr := did.ParseDID(claimedIss)
-							verd["issparses"] = perr == nil
+		case "@history-key-restored":
+			phaseRounds = 1
+			for k, v := range savedKeys {
+				source[k] = v
+			}
+		}
+		for round := 0; round < phaseRounds; round++ {
+			for ki, signer := range requesters {
+				issuer := didOf(signer)
+				claims := map[string]interface{}{"iss": issuer, "sub": "did:nuts:authorizer", "aud": "http://oauth", "jti": "a005e81c-6749-4967-b01c-495228fcafb4",
+					"iat": now.Unix(), "nbf": 0, "exp": now.Add(5 * time.Second).Unix(), "purposeOfUse": "unit-test"}
+				hdr := map[string]interface{}{"typ": "JWT", "kid": signer.KeyID()}
+				variants := tokenV2.VHostile(r, tokenV2.VNewBase(hdr, tokenV2.VJSON(claims), signer, requesters[(ki+1)%len(requesters)], mallory), 12)
+				for _, l := range lookalikes[signer.KeyName()] {
+					for _, v := range tokenV2.VHostile(r, tokenV2.VNewBase(hdr, tokenV2.VJSON(claims), signer, requesters[(ki+1)%len(requesters)], l), 0) {
+						if v.By == "attacker" {
+							v.Name, v.Class = "lookalike("+l.KeyName()+")-"+v.Name, "lookalike-did-"+v.Class
+							variants = append(variants, v)
 						}
 					}
 				}
-				// ---- the grant: signature, then the requester (= iss) is established
-				if len(only) == 0 || only["authzv1|"+v.Name] {
-					res := "reject"
-					func() {
-						defer func() {
-							if p := recover(); p != nil {
-								res = "panic"
-							}
-						}()
-						vctx := &validationContext{rawJwtBearerToken: v.Tok}
-						if err := srv.parseAndValidateJwtBearerToken(vctx); err != nil {
-							return
-						}
-						if err := srv.validateIssuer(vctx); err != nil {
-							return
-						}
-						if vctx.requester == nil || vctx.requester.String() != claimedIss {
-							res = "accept-other-requester"
-							return
-						}
-						res = "accept"
-					}()
-					emit(vAzOp{Op: "consume", C: "authzv1", Name: v.Name, Class: v.Class, HAlg: v.HAlg, By: v.By, Issuer: claimedIss, Info: info, V: verd}, res)
-				}
-				// ---- introspection of an access token: only tokens signed by one of THIS node's keys
-				for _, fault := range []string{"", "false+error", "true+error"} {
-					name := v.Name
-					if fault != "" { // faults only for the interesting shapes: properly signed tokens, own and foreign
-						if !(v.Class == "valid" || v.Class == "other-party" || v.Class == "forged" || strings.HasPrefix(v.Class, "lookalike-did-forged")) {
+				for _, v := range variants {
+					v.Name = "r" + strconv.Itoa(round) + "-" + signer.KeyName() + "-" + v.Name
+					if phase != "" { // key history on the long-lived object: only the plain valid token, after the key source changed
+						if v.Class != "valid" || !strings.HasSuffix(v.Name, "-valid") {
 							continue
 						}
-						name += "@store-" + fault
+						v.Name += phase
+						if phase == "@history-key-removed" {
+							v.Class = "key-removed"
+						}
 					}
-					if len(only) > 0 && !only["introspect|"+name] {
-						continue
+					info, _ := tokenV2.VAnalyse(v.Tok)
+					verd := map[string]interface{}{}
+					claimedIss := ""
+					if info.Parses && len(info.Sigs) == 1 {
+						key, ok := source[info.Sigs[0].Kid]
+						verd["keyfound"] = ok
+						verd["ownkey"] = ownKeys[info.Sigs[0].Kid]
+						if ok {
+							verd["fits"] = tokenV2.VAlgFitsKey(info.Sigs[0].Alg, key)
+							tok, err := jwt.ParseString(v.Tok, jwt.WithKey(jwa.SignatureAlgorithm(info.Sigs[0].Alg), key), jwt.WithVerify(true), jwt.WithAcceptableSkew(srv.clockSkew))
+							verd["verified"] = err == nil
+							if err == nil {
+								claimedIss = tok.Issuer()
+								_, perr := did.ParseDID(claimedIss)
+								verd["issparses"] = perr == nil
+							}
+						}
 					}
-					storeFault = fault
-					res := "reject"
-					func() {
-						defer func() {
-							if p := recover(); p != nil {
-								res = "panic"
+					// ---- the grant: signature, then the requester (= iss) is established
+					if len(only) == 0 || only["authzv1|"+v.Name] {
+						res := "reject"
+						func() {
+							defer func() {
+								if p := recover(); p != nil {
+									res = "panic"
+								}
+							}()
+							vctx := &validationContext{rawJwtBearerToken: v.Tok}
+							if err := srv.parseAndValidateJwtBearerToken(vctx); err != nil {
+								return
+							}
+							if err := srv.validateIssuer(vctx); err != nil {
+								return
+							}
+							if vctx.requester == nil || vctx.requester.String() != claimedIss {
+								res = "accept-other-requester"
+								return
+							}
+							res = "accept"
+						}()
+						emit(vAzOp{Op: "consume", C: "authzv1", Name: v.Name, Class: v.Class, HAlg: v.HAlg, By: v.By, Issuer: claimedIss, Info: info, V: verd}, res)
+					}
+					// ---- introspection of an access token: only tokens signed by one of THIS node's keys
+					for _, fault := range []string{"", "false+error", "true+error"} {
+						name := v.Name
+						if fault != "" { // faults only for the interesting shapes: properly signed tokens, own and foreign
+							if !(v.Class == "valid" || v.Class == "other-party" || v.Class == "forged" || strings.HasPrefix(v.Class, "lookalike-did-forged")) {
+								continue
+							}
+							name += "@store-" + fault
+						}
+						if len(only) > 0 && !only["introspect|"+name] {
+							continue
+						}
+						storeFault = fault
+						res := "reject"
+						func() {
+							defer func() {
+								if p := recover(); p != nil {
+									res = "panic"
+								}
+							}()
+							if _, err := srv.IntrospectAccessToken(context.Background(), v.Tok); err == nil {
+								res = "accept"
 							}
 						}()
-						if _, err := srv.IntrospectAccessToken(context.Background(), v.Tok); err == nil {
-							res = "accept"
+						storeFault = ""
+						vv := map[string]interface{}{"storefault": fault != ""}
+						for k, x := range verd {
+							vv[k] = x
 						}
-					}()
-					storeFault = ""
-					vv := map[string]interface{}{"storefault": fault != ""}
-					for k, x := range verd {
-						vv[k] = x
+						if fault != "" { // whether the key is this node's cannot be established
+							vv["ownkey"] = false
+						}
+						emit(vAzOp{Op: "consume", C: "introspect", Name: name, Class: v.Class, HAlg: v.HAlg, By: v.By, Issuer: claimedIss, Info: info, V: vv}, res)
 					}
-					if fault != "" { // whether the key is this node's cannot be established
-						vv["ownkey"] = false
-					}
-					emit(vAzOp{Op: "consume", C: "introspect", Name: name, Class: v.Class, HAlg: v.HAlg, By: v.By, Issuer: claimedIss, Info: info, V: vv}, res)
 				}
 			}
 		}
 	}
+
 	if n == 0 {
 		t.Fatal("nothing generated")
 	}
